@@ -19,3 +19,14 @@ def dec(s):
 @prim
 def fdec(s):
     return float(s)
+
+
+@prim
+def cp(c):
+    """One-character string for code point c."""
+    return chr(c)
+
+
+@prim
+def hexdigits(c):
+    return format(c, 'x')
